@@ -1,4 +1,4 @@
 SPECIFICATION Spec
-INVARIANTS Theorems Emit
+INVARIANTS Theorems SemiNaiveCorrect Emit EmitPlan
 PROPERTY MonotoneStep
 CHECK_DEADLOCK FALSE
